@@ -23,6 +23,7 @@ struct Cfg {
   int ss; double sslat, ssk;   // optional SetScale(sslat, ssk)
 };
 static const int NCFG = 13;
+static void trim_op(const Args& a, size_t n);
 static Cfg parse(const Args& a, size_t i = 0) {
   Cfg c; c.cls = std::stoi(a[i]); c.a = unhx(a[i + 1]); c.f = unhx(a[i + 2]); c.kind = std::stoi(a[i + 3]);
   for (int j = 0; j < 4; ++j) c.p[j] = unhx(a[i + 4 + j]);
@@ -178,7 +179,9 @@ static Reg r_pt("pt", [](const Args& a) {
   // 3. Forward(Reverse) = identity in the plane, on a displaced point of the image
   if (std::fabs(lat) < 89.9 && R < 100 * c.a && (c.cls == 0 || (std::fabs(g) < 150 && std::fabs(c11::dbl(d)) < 150))) {
     double x2 = x + 1234.5 * (c.a / 6378137.0), y2 = y - 777.25 * (c.a / 6378137.0), la, lo, gg, kk; o.Rev(np, lon0, x2, y2, la, lo, gg, kk);
-    if (std::fabs(la) < 89.99 && std::isfinite(kk)) {
+    // the displaced point must lie inside the image: the cone covers the sector |theta| < 180 n (k0^2 n for Albers)
+    double nn = c.cls == 0 ? 1.0 : std::fabs(std::sin(o.lat0() * Math::degree())) * (c.cls == 2 ? o.k0() * o.k0() : 1.0);
+    if (std::fabs(la) < 89.99 && std::isfinite(kk) && (nn == 0 || std::fabs(gg) < 170 * nn)) {
       double x3, y3, g3, k3; o.Fwd(np, lon0, la, lo, x3, y3, g3, k3);
       double dist = std::hypot(x3 - x2, y3 - y2), tol = tol_plane(c, std::hypot(x2, y2), std::fmax(kk, 1 / kk));
       // Reverse returns lat, lon rounded to binary64: half an ulp of 90 or 180 degrees on the ground
@@ -390,6 +393,7 @@ static Reg r_cfwd("conicfwd", [](const Args& a) {
   double sign, x, y, g, k, cx, cy, cg, ck;
   if (c.cls == 1) { LambertConformalConic q = *o.lcc; sign = q._sign; q._sign = 1; o.lcc->Forward(lon0, lat, lon, x, y, g, k); q.Forward(lon0, lat * sign, lon, cx, cy, cg, ck); }
   else { AlbersEqualArea q = *o.alb; sign = q._sign; q._sign = 1; o.alb->Forward(lon0, lat, lon, x, y, g, k); q.Forward(lon0, lat * sign, lon, cx, cy, cg, ck); }
+  trim_op(a, NCFG + 3);
   current_op() += " " + hx(sign) + " " + hx(cx) + " " + hx(cy) + " " + hx(cg) + " " + hx(ck);
   emit(hx(x) + " " + hx(y) + " " + hx(g) + " " + hx(k));
 });
@@ -399,8 +403,74 @@ static Reg r_crev("conicrev", [](const Args& a) {
   double sign, lat, lon, g, k, clat, clon, cg, ck;
   if (c.cls == 1) { LambertConformalConic q = *o.lcc; sign = q._sign; q._sign = 1; o.lcc->Reverse(lon0, x, y, lat, lon, g, k); q.Reverse(lon0, x, y * sign, clat, clon, cg, ck); }
   else { AlbersEqualArea q = *o.alb; sign = q._sign; q._sign = 1; o.alb->Reverse(lon0, x, y, lat, lon, g, k); q.Reverse(lon0, x, y * sign, clat, clon, cg, ck); }
+  trim_op(a, NCFG + 3);
   current_op() += " " + hx(sign) + " " + hx(clat) + " " + hx(clon) + " " + hx(cg) + " " + hx(ck);
   emit(hx(lat) + " " + hx(lon) + " " + hx(g) + " " + hx(k));
+});
+
+
+// ---------------------------------------------------------------------------------------------------------------
+// cone kernels against the Lean models (Model/ConicKernels.lean): Init members, northern-cone Forward / Reverse with the
+// implementation's own members, SetScale, txif / tphif, DDatanhee / atanhxm1
+// keep "op" and its first n arguments (a replayed line carries the tokens appended by the previous run)
+static void trim_op(const Args& a, size_t n) {
+  std::string op = current_op().substr(0, current_op().find(' ')); Args b(a.begin(), a.begin() + std::min(n, a.size())); current_op() = op + join(b);
+}
+static Args lccm(const LambertConformalConic& q) { return {hx(q._sign), hx(q._n), hx(q._nc), hx(q._t0nm1), hx(q._scale), hx(q._lat0), hx(q._k0), hx(q._scbet0), hx(q._tchi0), hx(q._scchi0), hx(q._psi0), hx(q._nrho0), hx(q._drhomax)}; }
+static Args albm(const AlbersEqualArea& q) { return {hx(q._sign), hx(q._lat0), hx(q._k0), hx(q._n0), hx(q._m02), hx(q._nrho0), hx(q._k2), hx(q._txi0), hx(q._scxi0), hx(q._sxi0)}; }
+static Args members(const Obj& o) { return o.cls == 1 ? lccm(*o.lcc) : albm(*o.alb); }
+// what the constructor hands to Init
+static void rawsc(const Cfg& c, double& s1, double& c1, double& s2, double& c2) {
+  if (c.kind == 1) { Math::sincosd(c.p[0], s1, c1); s2 = s1; c2 = c1; }
+  else if (c.kind == 2) { Math::sincosd(c.p[0], s1, c1); Math::sincosd(c.p[1], s2, c2); }
+  else { s1 = c.p[0]; c1 = c.p[1]; s2 = c.p[2]; c2 = c.p[3]; }
+}
+static void op_kinit(const Args& a) {
+  Cfg c = parse(a); Obj o; std::string ex = build(c, o, false); if (c.cls == 0) { emit("!E"); return; }
+  double s1, c1, s2, c2; rawsc(c, s1, c1, s2, c2); trim_op(a, NCFG);
+  current_op() += " " + hx(c.a) + " " + hx(c.f) + " " + hx(s1) + " " + hx(c1) + " " + hx(s2) + " " + hx(c2) + " " + hx(c.k1);
+  if (!ex.empty()) { emit(ex); return; }
+  emit(join(members(o)).substr(1));
+}
+static Reg r_lccinit("lccinit", op_kinit); static Reg r_albinit("albinit", op_kinit);
+static void op_kfwd(const Args& a) {
+  Cfg c = parse(a); double lon0 = unhx(a[NCFG]), lat = unhx(a[NCFG + 1]), lon = unhx(a[NCFG + 2]);
+  Obj o; std::string ex = build(c, o); if (!ex.empty() || c.cls == 0) { emit("!E"); return; }
+  double sign = c.cls == 1 ? o.lcc->_sign : o.alb->_sign, sphi, cphi, x, y, g, k;
+  Math::sincosd(Math::LatFix(lat * sign), sphi, cphi); double lam = Math::AngDiff(lon0, lon) * Math::degree();
+  if (c.cls == 1) { LambertConformalConic q = *o.lcc; q._sign = 1; q.Forward(lon0, lat * sign, lon, x, y, g, k); }
+  else { AlbersEqualArea q = *o.alb; q._sign = 1; q.Forward(lon0, lat * sign, lon, x, y, g, k); }
+  trim_op(a, NCFG + 3);
+  current_op() += " " + hx(c.a) + " " + hx(c.f) + join(members(o)) + " " + hx(sphi) + " " + hx(cphi) + " " + hx(lam);
+  emit(hx(x) + " " + hx(y) + " " + hx(g) + " " + hx(k));
+}
+static Reg r_lccfwd("lccfwd", op_kfwd); static Reg r_albfwd("albfwd", op_kfwd);
+static void op_krev(const Args& a) {
+  Cfg c = parse(a); double x = unhx(a[NCFG]), y = unhx(a[NCFG + 1]);
+  Obj o; std::string ex = build(c, o); if (!ex.empty() || c.cls == 0) { emit("!E"); return; }
+  double lat, lon, g, k;
+  if (c.cls == 1) { LambertConformalConic q = *o.lcc; q._sign = 1; q.Reverse(0, x, y, lat, lon, g, k); }
+  else { AlbersEqualArea q = *o.alb; q._sign = 1; q.Reverse(0, x, y, lat, lon, g, k); }
+  trim_op(a, NCFG + 2);
+  current_op() += " " + hx(c.a) + " " + hx(c.f) + join(members(o));
+  emit(hx(lat) + " " + hx(lon) + " " + hx(g) + " " + hx(k));
+}
+static Reg r_lccrev("lccrev", op_krev); static Reg r_albrev("albrev", op_krev);
+static Reg r_css("csetscale", [](const Args& a) {
+  Cfg c = parse(a); Obj o; std::string ex = build(c, o, false); if (!ex.empty() || c.cls == 0 || !c.ss) { emit("!E"); return; }
+  double x, y, g, kold; o.Fwd(true, 0, c.sslat, 0, x, y, g, kold);
+  trim_op(a, NCFG);
+  current_op() += " " + std::to_string(c.cls) + " " + hx(kold) + " " + hx(c.ssk) + join(members(o));
+  std::string e2 = guarded([&] { if (c.cls == 1) o.lcc->SetScale(c.sslat, c.ssk); else o.alb->SetScale(c.sslat, c.ssk); });
+  if (!e2.empty()) { emit(e2); return; }
+  emit(join(members(o)).substr(1));
+});
+static Reg r_ctxif("ctxif", [](const Args& a) {
+  double f = unhx(a[0]), tphi = unhx(a[1]); AlbersEqualArea q(1, f, 0, 1); double txi = q.txif(tphi); emit(hx(txi) + " " + hx(q.tphif(txi)));
+});
+static Reg r_cddat("cddat", [](const Args& a) {
+  double f = unhx(a[0]), x = unhx(a[1]), y = unhx(a[2]), xm = unhx(a[3]); AlbersEqualArea q(1, f, 0, 1);
+  emit(hx(q.DDatanhee(x, y)) + " " + hx(AlbersEqualArea::atanhxm1(xm)));
 });
 
 // ---------------------------------------------------------------------------------------------------------------
@@ -499,10 +569,22 @@ void gv::generate(const std::string& tier, uint64_t seed) {
       run("pt", A({ec, {std::to_string(int(r.coin())), hx(lon0), hx(lat), hx(lon)}})); stratum(st);
       if (i < 2 && j == 0) sample(current_op());
       if (c.cls != 0 && j < 2) {
+        run(c.cls == 1 ? "lccfwd" : "albfwd", A({ec, {hx(lon0), hx(lat), hx(lon)}})); stratum("kernel-forward");
         run("conicfwd", A({ec, {hx(lon0), hx(lat), hx(lon)}}));
         double x = r.range(-1, 1) * 8e6, y = r.range(-1, 1) * 8e6; if (j == 0) { Obj o; if (build(c, o).empty()) { double g, k; o.Fwd(true, lon0, lat, lon, x, y, g, k); } }
         run("conicrev", A({ec, {hx(lon0), hx(x), hx(y)}}));
+        { Obj o2; double sg = 1; if (build(c, o2).empty()) sg = c.cls == 1 ? o2.lcc->_sign : o2.alb->_sign;
+          run(c.cls == 1 ? "lccrev" : "albrev", A({ec, {hx(x), hx(y * sg)}})); stratum("kernel-reverse"); }
       }
+    }
+    if (c.cls != 0) { run(c.cls == 1 ? "lccinit" : "albinit", ec); stratum("kernel-init"); if (c.ss) { run("csetscale", ec); stratum("kernel-setscale"); } }
+    {
+      double f = pickf(r), tphi = r.irange(0, 3) ? std::tan(r.range(-1.5707, 1.5707)) : (r.coin() ? 1 : -1) * std::pow(10.0, r.range(-10, 12));
+      run("ctxif", {hx(f), hx(tphi)});
+      double y = r.irange(0, 2) ? r.range(-1, 1) : 1 - std::pow(10.0, -r.range(0, 12)), x = r.irange(0, 2) ? r.range(-1, y) : y - std::pow(10.0, -r.range(1, 12)) * (1 + y);
+      if (r.irange(0, 5) == 0) x = y; if (x < -1) x = -1;
+      double xm = r.irange(0, 2) ? (r.coin() ? 1 : -1) * std::pow(10.0, r.range(-20, -0.3)) : r.range(-0.9, 0.9); if (r.irange(0, 20) == 0) xm = 0;
+      run("cddat", {hx(f), hx(x), hx(y), hx(xm)}); stratum("albers-helpers");
     }
     run("cfgprops", A({ec, {hx(picklat(r, c)), hx(r.range(-80, 80)), hx(r.range(-89, 89)), hx(r.range(-170, 170))}})); stratum("cfg-" + st);
     // polar stereographic formula model and tauf/taupf
